@@ -185,6 +185,10 @@ func c09() int {
 						c09One(rep, cb, "bulk-second", &evals, &accepted, &rejected, &samples)
 					}
 					c09One(rep, c, entry, &evals, &accepted, &rejected, &samples)
+					if variant == 1 && li%4 == 1 {
+						cc := &c09Case{Postings: lists[li], BalA: ba, BalB: bb}
+						c09One(rep, cc, entry+"-confirm", &evals, &accepted, &rejected, &samples)
+					}
 				}
 			}
 		}
@@ -212,6 +216,9 @@ func c09() int {
 		"posting_lists":       len(lists),
 		"rejected":            int(rejected),
 	}
+	// the amount of a posting as a client writes it (apivars.go)
+	apiCases, apiAccepted, apiRefused := apiAmounts(rep)
+	cov["api_amount_cases"], cov["api_amount_accepted"], cov["api_amount_refused"] = apiCases, apiAccepted, apiRefused
 	return rep.Finish(cov)
 }
 
@@ -248,6 +255,10 @@ func runCreate(eng *engineh.Engine, entry string, c *c09Case) (tx *ledger.Transa
 		b := recbackend.New("l1")
 		b.Ledgers["l1"].W = eng.Cmd
 		body := map[string]interface{}{"postings": c.Postings}
+		// "-confirm": the usual preview-then-confirm flow - the request is first sent as a preview, then for real, both
+		// carrying the same Idempotency-Key
+		confirm := strings.HasSuffix(entry, "-confirm")
+		entry = strings.TrimSuffix(entry, "-confirm")
 		if entry == "v2-vars" {
 			// the body also carries script variables named like the ones the server generates for the postings, with
 			// other (well-typed) values: the postings are what was asked for, whatever else the body holds
@@ -276,7 +287,19 @@ func runCreate(eng *engineh.Engine, entry string, c *c09Case) (tx *ledger.Transa
 		if entry == "v2" {
 			url = "/api/ledger/v2/l1/transactions"
 		}
+		if confirm {
+			flag := "?preview=true"
+			if entry == "v2" {
+				flag = "?dryRun=true"
+			}
+			preq := httptest.NewRequest("POST", url+flag, strings.NewReader(string(raw))).WithContext(eng.Ctx())
+			preq.Header.Set("Idempotency-Key", "confirm-1")
+			newRouter(b, false).ServeHTTP(httptest.NewRecorder(), preq)
+		}
 		req := httptest.NewRequest("POST", url, strings.NewReader(string(raw))).WithContext(eng.Ctx())
+		if confirm {
+			req.Header.Set("Idempotency-Key", "confirm-1")
+		}
 		w := httptest.NewRecorder()
 		newRouter(b, false).ServeHTTP(w, req)
 		if w.Code >= 300 {
